@@ -186,6 +186,18 @@ theorem C02_hard_restart_guard (useRestarts useSoft able : Bool) (nf maxfun nrun
   obtain ⟨h1, h2, h3, h4, _⟩ := RestartGuards.hardRestartGuard_sound useRestarts useSoft able nf maxfun nruns last maxUnsucc h
   exact ⟨by omega, h2, h3, h4⟩
 
+/-- **refinement L0 → L2, block at x0**: the events `rst …, ns want, obj…, ctrl …` that the TRANSLATED x0 block produces are
+    accepted by the counter acceptor from any idle state with the same counters and budget left, and leave it idle with
+    the block's counters. -/
+theorem C02_x0_refines_acceptor (maxfun nf nx want x nruns npt : Nat) (v : Val) (s : St)
+    (hm : s.maxfun = maxfun) (hp : s.phase = .idle) (hn : s.nf = nf) (hx : s.nx = nx)
+    (hb : nf < maxfun) (hw : 1 ≤ want) (lab ns' cap : Nat) (v0 thr : Val) :
+    let t := EvalLoop.forRange (want - 1) (Gen.x0Body maxfun) (Gen.x0Init nf nx)
+    ∃ s', ([Ev.rst nruns nf nx false maxfun npt, Ev.ns (want : Int)] ++ t.calls.map (EvalLoopAcc.objEv x v) ++
+            [Ev.ctrl lab ns' v0 cap thr]).foldlM step s = .ok s' ∧
+      s'.phase = .idle ∧ s'.nf = t.nf ∧ s'.nx = t.nx ∧ s'.maxfun = maxfun :=
+  EvalLoopAcc.evaluateX0_accepted maxfun nf nx want x nruns npt v s hm hp hn hx hb hw lab ns' cap v0 thr
+
 /-- non-vacuity / worked example: 3 samples asked with one evaluation left -/
 example : (EvalLoop.forRange 3 (Gen.evalObjBody 10) (Gen.evalObjInit 9 4)) =
     { nf := 10, nx := 5, incremented := true, runs := 1, exit := some 1, calls := [(10, 5)] } := by decide
